@@ -1,5 +1,6 @@
 /* heap world: C07 (the heap always yields a maximum; the tree stays complete) and the heap part of C15 */
 #include "cstl/heap.h"
+#include <limits.h>
 #define W_AUDIT_NEW_STATES_ONLY 1   /* the key holds the implementation's raw state AND the reference model, so the audit verdict is a function of the key */
 #include "../engine/mc.h"
 #include <sanitizer/asan_interface.h>
@@ -26,8 +27,8 @@ enum { K_POP_EMPTY, K_POP_TIED_MAX, K_POP_SIFT, K_PUSH_NEW_MAX, K_CLEAR, K_CLEAR
 static const char *w_counter_names[] = { "pop_on_empty", "pop_with_tied_maxima", "pop_from_size_ge_4", "push_of_new_maximum", "clear_applied", "clear_on_nonempty", NULL };
 
 struct cfg { int n, cmp; const char *pool; };
-static const struct cfg quick_cfgs[] = { { 8, 0, "distinct" }, { 8, 0, "paired" }, { 7, 0, "allequal" }, { 8, 1, "distinct" }, { 7, 1, "paired" }, { 7, 2, "distinct" }, { 7, 1, "heavy" } };
-static const struct cfg thorough_cfgs[] = { { 10, 0, "distinct" }, { 10, 0, "paired" }, { 8, 0, "allequal" }, { 10, 1, "distinct" }, { 10, 1, "paired" }, { 9, 2, "distinct" }, { 9, 1, "heavy" }, { 9, 2, "paired" }, { 8, 1, "allequal" } };
+static const struct cfg quick_cfgs[] = { { 8, 0, "distinct" }, { 8, 0, "paired" }, { 7, 0, "allequal" }, { 8, 1, "distinct" }, { 7, 1, "paired" }, { 7, 2, "distinct" }, { 7, 1, "heavy" }, { 7, 3, "paired" } };
+static const struct cfg thorough_cfgs[] = { { 10, 0, "distinct" }, { 10, 0, "paired" }, { 8, 0, "allequal" }, { 10, 1, "distinct" }, { 10, 1, "paired" }, { 9, 2, "distinct" }, { 9, 1, "heavy" }, { 9, 2, "paired" }, { 8, 1, "allequal" }, { 10, 3, "paired" }, { 10, 3, "distinct" } };
 static const struct cfg *cfgs(int thorough, int *n)
 {
     if (thorough) { *n = (int)(sizeof thorough_cfgs / sizeof thorough_cfgs[0]); return thorough_cfgs; }
@@ -46,7 +47,7 @@ static void w_setup(int cfg, int thorough)
         else prios[i] = i == 0 ? 0 : (i == N - 1 ? 2 : 1);
     }
     if (!strcmp(c->pool, "distinct")) { static const int perm[] = { 5, 2, 8, 0, 9, 3, 7, 1, 6, 4, 11, 10 }; int k = 0; for (i = 0; i < 12 && k < N; i++) if (perm[i] < N) prios[k++] = perm[i]; }
-    snprintf(cfgdesc, sizeof cfgdesc, "cstl_heap, pool of %d elements with %s priorities, comparator %s", N, c->pool, CMPMODE == 0 ? "a-b" : CMPMODE == 1 ? "sign only" : "reversed");
+    snprintf(cfgdesc, sizeof cfgdesc, "cstl_heap, pool of %d elements with %s priorities, comparator %s", N, c->pool, CMPMODE == 0 ? "a-b" : CMPMODE == 1 ? "sign only" : CMPMODE == 2 ? "reversed" : "INT_MIN/0/INT_MAX");
     w_nops = 0;
     for (i = 0; i < N; i++) w_ops[w_nops++] = OP(O_PUSH, i);
     w_ops[w_nops++] = OP(O_POP, 0); w_ops[w_nops++] = OP(O_CLEAR, 0); w_ops[w_nops++] = OP(O_SWAPPAIR, 0);
@@ -59,6 +60,7 @@ static int cmp_elem(const void *a, const void *b, void *p)
     (void)p;
     if (CMPMODE == 1) return d < 0 ? -1 : d > 0;
     if (CMPMODE == 2) return -d;
+    if (CMPMODE == 3) return d < 0 ? INT_MIN : d > 0 ? INT_MAX : 0;
     return d;
 }
 static int korder(int a, int b) { int d = a - b; return CMPMODE == 2 ? -d : d; }
@@ -228,7 +230,7 @@ static void canon_one(int t)
 {
     { ck_nodes = 0; KB_C('H'); KB_U(H[t].bt.size); KB_C('o'); KB_U(H[t].bt.off); KB_C(':'); ck(H[t].bt.root); }
 }
-static void w_canon(void) { int i; canon_one(0); canon_one(1); KB_C('m'); for (i = 0; i < N; i++) KB_C(m_member[i] ? '1' : '0'); }
+static void w_canon(void) { int i; canon_one(0); canon_one(1); KB_C('m'); for (i = 0; i < N; i++) KB_C(m_member[i] ? '1' : '0'); for (i = 0; i < N; i++) if (pool[i].pad != 0x1111 || pool[i].tail != 0x2222 || pool[i].prio != prios[i]) { KB_C('X'); KB_U((unsigned)i); } }
 static void check_fresh(void)
 {
     char a[128], b[128]; size_t save = mc_kbn, n;
